@@ -1,6 +1,7 @@
 package main
 
 import (
+	"math/big"
 	"math/rand"
 
 	clipper "github.com/bolom009/go-clipper2"
@@ -20,6 +21,7 @@ type MinkEv struct {
 	Sol      Paths  `json:"sol"`
 	SolSwap  Paths  `json:"solSwap"` // Sum(path, pattern) for closed sums
 	HasSwap  bool   `json:"hasSwap"`
+	KV       MagVar `json:"kv"` // the same call with pattern and path scaled by k, mapped back to base units
 	Sol2Same bool   `json:"sol2same"`
 	ArgsSame bool   `json:"argsSame"`
 	Probes   []Pt   `json:"probes"`
@@ -112,6 +114,31 @@ func execMink(r *rand.Rand, e *MinkEv) {
 		e.SolSwap, _ = callMink(e.Path, e.Pattern, true, true)
 		e.HasSwap = true
 	}
+	// magnitude: pattern and path multiplied by k (coordinate sums stay below 2^61)
+	{
+		k := big.NewInt(1)
+		if e.KV.K.S != 0 {
+			k = big.NewInt(bigJToInt(e.KV.K)) // replay: the recorded factor
+		} else {
+			k = big.NewInt(1000 + r.Int63n(2000000000000000))
+			if r.Intn(3) == 0 {
+				k = big.NewInt(int64(1) << uint(20+r.Intn(30)))
+			}
+		}
+		zero := [2]*big.Int{big.NewInt(0), big.NewInt(0)}
+		var rk clipper.Paths64
+		out := safeCall(func() {
+			pk, qk := mapPath(e.Pattern, zero, k), mapPath(e.Path, zero, k)
+			if e.Sum {
+				rk = clipper.MinkowskiSum64(pk, qk, e.Closed)
+			} else {
+				rk = clipper.MinkowskiDiff64(pk, qk, e.Closed)
+			}
+		})
+		e.KV = MagVar{Kind: "k", T: [2]BigJ{bigJ64(0), bigJ64(0)}, K: bigJ(k), Out: out, Sol: paths64B(rk), A2: bigJ64(0)}
+		e.KV.Q, e.KV.QOk = mapBack(rk, zero, k)
+		e.KV.Q = nz(e.KV.Q)
+	}
 	qs := minkQuads(e)
 	far := func(p Pt) bool { return farClosed(p, qs, 8) }
 	bad := func(p Pt) bool {
@@ -123,6 +150,9 @@ func execMink(r *rand.Rand, e *MinkEv) {
 			return true
 		}
 		if farClosed(p, e.Sol, 8) && w != 0 && w != 1 {
+			return true
+		}
+		if farClosed(p, qs, 12) && farClosed(p, e.KV.Q, 12) && farClosed(p, e.Sol, 12) && (w != 0) != (wnPaths(p, e.KV.Q) != 0) {
 			return true
 		}
 		if e.HasSwap && farClosed(p, e.SolSwap, 8) && farClosed(p, e.Sol, 8) && (w != 0) != (wnPaths(p, e.SolSwap) != 0) {
